@@ -194,6 +194,31 @@ func Families() map[string]GraphSpec {
 		spec(KStore, 0, 0, -1, 0, 0, 0, 0, 1),
 		spec(KMap, 0, 0, -1, 0, 0, 0, 0, 0, 1),
 	}
+	// shared input: the output reads x and d; x reads a; d reads a (already reached through x) and a store c that only d
+	// reaches. Both branch orders (x before d, d before x).
+	f["shared5"] = GraphSpec{
+		spec(KMap, 1, 0, -1),             // a
+		spec(KStore, 1, 0, -1),           // b = store "c" of the comment
+		spec(KMap, 0, 0, -1, 1),          // c = x reads a
+		spec(KMap, 0, 0, -1, 1, 1),       // d reads a and the store
+		spec(KMap, 0, 0, -1, 0, 0, 1, 1), // e reads x and d
+	}
+	f["shared5b"] = GraphSpec{
+		spec(KMap, 1, 0, -1),             // a
+		spec(KStore, 1, 0, -1),           // b: store only d reaches
+		spec(KMap, 0, 0, -1, 1, 1),       // c = d reads a and the store
+		spec(KMap, 0, 0, -1, 1),          // d = x reads a
+		spec(KMap, 0, 0, -1, 0, 0, 1, 1), // e reads both
+	}
+	// the same with the private dependency declared last
+	f["shared6"] = GraphSpec{
+		spec(KMap, 1, 0, -1),                // a
+		spec(KMap, 0, 0, -1, 1),             // b = x reads a
+		spec(KStore, 0, 0, -1, 1),           // c = store reading a
+		spec(KStore, 1, 0, -1),              // d = private store
+		spec(KMap, 0, 0, -1, 1, 0, 0, 1),    // e reads a and the private store
+		spec(KMap, 0, 0, -1, 0, 1, 1, 0, 1), // f reads x, store c and e
+	}
 	// diamond: m0 -> (s1, s2) -> m3 ; plus unrelated m4, s5
 	f["diamond6"] = GraphSpec{
 		spec(KMap, 1, 2, -1),
